@@ -21,6 +21,18 @@ theorem sim_linearize (s : St) (a : Actor) (g' : G) (o : Out) (np : Pc)
     Sim s (linearize s a g' o np) :=
   .lin a o hpl (by simp [linearize, hnp]) hst rfl (by simp [linearize]) hlk
 
+/-- `running` is not mentioned by the invariant -/
+theorem Inv.running_irrel {s : St} (h : Inv s) (r : Ptr → Bool) : Inv { s with running := r } :=
+  ⟨h.wf, h.hist, h.act, h.excl, h.own, h.alw, h.pre, h.need, h.chk, h.lin⟩
+
+theorem Sim.running_irrel {s s' : St} (h : Sim s s') (r : Ptr → Bool) : Sim s { s' with running := r } := by
+  cases h with
+  | stutter hg hh => exact .stutter hg hh
+  | lin a o h1 h2 h3 h4 h5 h6 => exact .lin a o h1 h2 h3 h4 h5 h6
+
+theorem afterPre_cases (op : Op) : afterPre op = .want ∨ afterPre op = .joining := by
+  cases op <;> simp [afterPre]
+
 theorem call_inv (s s' : St) (a : Actor) (op : Op) (h : Inv s) (hs : stepCall s a op = some s') :
     Inv s' ∧ Sim s s' := by
   unfold stepCall at hs
@@ -147,13 +159,45 @@ theorem pre_inv (s s' : St) (a : Actor) (h : Inv s) (hs : stepPre s a = some s')
       simp only [Option.some.injEq] at hs
       subst hs
       refine ⟨?_, .stutter rfl rfl⟩
-      apply inv_local s (setPc s a .want) a .want h rfl rfl rfl rfl rfl rfl (fun _ _ => rfl)
-        (preLin_ne_idle hpl) (by simp)
+      have hnp : ∀ np, (np = .want ∨ np = .joining) → Inv (setPc s a np) := by
+        intro np hnp
+        have hnc : inCrit np = false := by rcases hnp with e | e <;> rw [e] <;> rfl
+        apply inv_local s (setPc s a np) a np h rfl rfl rfl rfl rfl rfl (fun _ _ => rfl)
+          (preLin_ne_idle hpl) (by rcases hnp with e | e <;> rw [e] <;> simp)
+        · exact own_of_not_crit h np (by rw [hpc]; rfl) hnc
+        · intro _; exact hpl
+        · intro _; simpa using hlf
+        · intro e; rcases hnp with e' | e' <;> rw [e'] at e <;> simp at e
+        · intro e; rcases hnp with e' | e' <;> rw [e'] at e <;> simp [postLin] at e
+      exact hnp _ (afterPre_cases _)
+  · simp at hs
+
+theorem joined_inv (s s' : St) (a : Actor) (h : Inv s) (hs : stepJoined s a = some s') :
+    Inv s' ∧ Sim s s' := by
+  unfold stepJoined at hs
+  split at hs
+  · rename_i hpc
+    have hai : s.pc a ≠ .idle := by rw [hpc]; simp
+    have hneed := h.need a (by rw [hpc]; rfl)
+    cases hop : s.op a with
+    | free p =>
+      simp only [hop, Option.some.injEq] at hs
+      subst hs
+      refine ⟨?_, .stutter rfl rfl⟩
+      apply inv_local s { s with running := upd s.running p false, pc := upd s.pc a .want } a .want h rfl rfl rfl rfl
+        rfl rfl (fun _ _ => rfl) hai (by simp)
       · exact own_of_not_crit h .want (by rw [hpc]; rfl) rfl
-      · intro _; exact hpl
-      · intro _; simpa using hlf
+      · intro _; rw [hpc]; rfl
+      · intro _; exact hneed
       · intro e; simp at e
       · intro e; simp [postLin] at e
+    | create p => simp [hop] at hs
+    | createWithRank p r => simp [hop] at hs
+    | setRank p r => simp [hop] at hs
+    | getNum => simp [hop] at hs
+    | join p => simp [hop] at hs
+    | revive p => simp [hop] at hs
+    | getRank p => simp [hop] at hs
   · simp at hs
 
 theorem tas_inv (s s' : St) (a : Actor) (old : Bool) (h : Inv s) (hs : stepTas s a old = some s') :
@@ -318,8 +362,8 @@ theorem insert_inv (s s' : St) (a : Actor) (h : Inv s) (hs : stepInsert s a = so
         subst hs
         have hst : Rank.step s.g (s.op a) = some (g', .okRank (g'.rank p)) := by
           apply step_of_pre hpre; rw [hop]; rw [hop] at hchk; exact lin_create s.g g' p _ hchk hi
-        exact ⟨inv_lin s a _ _ .mutated h hpl rfl (by rw [hpc]; rfl) hst (Or.inl hlk),
-          sim_linearize s a _ _ .mutated hpl rfl hst (Or.inl hlk)⟩
+        exact ⟨(inv_lin s a _ _ .mutated h hpl rfl (by rw [hpc]; rfl) hst (Or.inl hlk)).running_irrel _,
+          (sim_linearize s a _ _ .mutated hpl rfl hst (Or.inl hlk)).running_irrel _⟩
     | createWithRank p r =>
       simp only [hop] at hs
       have hr : ¬ r < 0 := by
@@ -331,8 +375,8 @@ theorem insert_inv (s s' : St) (a : Actor) (h : Inv s) (hs : stepInsert s a = so
         subst hs
         have hst : Rank.step s.g (s.op a) = some (g', .okRank (g'.rank p)) := by
           apply step_of_pre hpre; rw [hop]; rw [hop] at hchk; exact lin_createw_ok s.g g' p r _ hr hchk hi
-        exact ⟨inv_lin s a _ _ .mutated h hpl rfl (by rw [hpc]; rfl) hst (Or.inl hlk),
-          sim_linearize s a _ _ .mutated hpl rfl hst (Or.inl hlk)⟩
+        exact ⟨(inv_lin s a _ _ .mutated h hpl rfl (by rw [hpc]; rfl) hst (Or.inl hlk)).running_irrel _,
+          (sim_linearize s a _ _ .mutated hpl rfl hst (Or.inl hlk)).running_irrel _⟩
     | setRank p r => simp [hop] at hs
     | free p => simp [hop] at hs
     | getNum => simp [hop] at hs
@@ -497,6 +541,7 @@ theorem inv_step (s s' : St) (e : Ev) (h : Inv s) (hs : step s e = some s') : In
   cases e with
   | call a op => exact call_inv s s' a op h hs
   | pre a => exact pre_inv s s' a h hs
+  | joined a => exact joined_inv s s' a h hs
   | tas a old => exact tas_inv s s' a old h hs
   | spinLoad a v => exact spin_inv s s' a v h hs
   | check a => exact check_inv s s' a h hs
